@@ -58,7 +58,7 @@ def special_docs(rng, doc):
         doc.records[b].ymd = doc.records[a].ymd            # two records sharing a date (legal)
     return doc
 
-PAUSE_FORMS = ["0m", "+0m", "-0m", "0h", "-0h0m", "0m foo-bar", "+0m x-1m y", "-5m lunch-break", "-1h5m", "0m -", "-0m  #tag-a"]
+PAUSE_FORMS = ["-30m\tLunch break", "-1h\tx y", "0m\ttab", "-5m \t mixed", "0m", "+0m", "-0m", "0h", "-0h0m", "0m foo-bar", "+0m x-1m y", "-5m lunch-break", "-1h5m", "0m -", "-0m  #tag-a"]
 
 def pause_scenario(rng):
     """a record dated 'today' with an open range and an existing pause in one of the spellings the specification allows"""
